@@ -57,6 +57,8 @@ class Options:
     install_skill: bool
     agent_base: str | None
     docs: bool
+    # File discovery: only settable from a config file (replaces the default include patterns)
+    include: list[str] | None = None
 
 
 def _parse_args(args: list[str] | None = None) -> tuple[Options, set[str], bool]:
@@ -358,6 +360,7 @@ def _resolve_files(options: Options) -> list[str]:
     stdin_present = len(resolvable) < len(options.files)
 
     config = FileResolverConfig(
+        **({"include": options.include} if options.include is not None else {}),
         extend_include=options.extend_include,
         exclude=options.exclude,
         extend_exclude=options.extend_exclude,
